@@ -4,7 +4,7 @@ PROP = dict(
         extra=dict(mode="data"),
         corpus_filter=r"^c02_",
         flag_filter=r"^(read_intact|prune_only_unreferenced|shrink_keeps_occupied|lost_counted|data/)",
-        quick=dict(n=320, len=45, shards=8, timeout=300),
+        quick=dict(n=256, len=45, shards=8, timeout=300),
         thorough=dict(n=3200, len=60, shards=16, timeout=1700),
         nontrivial=r"^read .*res=ok", min_ops=8, min_kinds=4,
         trusted_base=COMMON_TB + [
